@@ -261,8 +261,22 @@ def check_rewrite_func(run: Run, ctx, m, rule: str) -> None:
         if isinstance(n, ast.Raise):
             exc = n.exc.func if isinstance(n.exc, ast.Call) else n.exc
             run.check(isinstance(exc, ast.Name) and exc.id == "ValueError", rule, rf, n, "refusal is a ValueError", f"refusal raises {ast.unparse(exc)}")
-    # docstring filter: only constant expression statements are dropped
-    comps = [n for n in own_nodes(rf) if isinstance(n, ast.ListComp)]
-    ok_f = len(comps) == 1 and len(comps[0].generators) == 1 and len(comps[0].generators[0].ifs) == 1 and "ast.Expr" in ast.unparse(comps[0].generators[0].ifs[0]) and "ast.Constant" in ast.unparse(comps[0].generators[0].ifs[0]) and strip_sites(fr.term_of(comps[0].generators[0].iter, fr.cfg.node_of(comps[0]))) == ("attr", fp, "body")
-    run.check(ok_f, rule, rf, comps[0] if comps else rf.node, "only docstring-like constant expression statements are ignored", "the statements considered are not 'f.body minus constant expression statements'")
+    # docstring filter: only constant expression statements are dropped - read off the term of the returned body
+    ok_f = False
+    fcomp = None
+    for s_, n_ in rets:
+        t_ = strip_sites(fr.term_of(s_.value, n_))
+        d_ = dict(t_[2]) if t_[0] == "new" and t_[1] == "Lambda" else {}
+        b_ = d_.get("body")
+        if b_ is not None and b_[0] == "attr" and b_[1][0] == "index" and b_[1][1][0] == "comp":
+            fcomp = b_[1][1]
+    if fcomp is not None and len(fcomp[3]) == 1:
+        body_t = ("attr", fp, "body")
+        it_, conds_ = fcomp[3][0]
+        el = ("elem", body_t)
+        is_expr = ("app", ("global", "builtins.isinstance"), (el, ("global", "ast.Expr")), ())
+        is_const = ("app", ("global", "builtins.isinstance"), (("attr", el, "value"), ("global", "ast.Constant")), ())
+        want_c = ("op", "Not", (("op", "And", (is_expr, is_const)),))
+        ok_f = it_ == body_t and fcomp[2] == el and list(conds_) == [want_c]
+    run.check(ok_f, rule, rf, rf.node, "only docstring-like constant expression statements are ignored", "the statements considered are not 'f.body minus constant expression statements'")
 
